@@ -220,6 +220,7 @@ func runCheck(args []string) int {
 		bad       []*Obl
 		solver    map[string]int
 		time      float64
+		maxT      float64
 		tags      []string
 		kind      string
 	}
@@ -250,6 +251,9 @@ func runCheck(args []string) int {
 			}
 			a.total++
 			a.time += o.TimeS
+			if o.TimeS > a.maxT {
+				a.maxT = o.TimeS
+			}
 			solverTime += o.TimeS
 			if o.Result == "unsat" {
 				a.ok++
@@ -270,6 +274,14 @@ func runCheck(args []string) int {
 	if len(order) == 0 {
 		fmt.Printf("TOOLING-ERROR: property %s generated zero obligations\n", id)
 		return 2
+	}
+	if os.Getenv("GVC_SLOW") != "" {
+		for _, n := range order {
+			a := byName[n]
+			if a.maxT > 2 {
+				fmt.Printf("SLOW %.1fs max %.1fs (%d cases) %s\n", a.time, a.maxT, a.total, a.name)
+			}
+		}
 	}
 	discharged := 0
 	var samples []interface{}
